@@ -141,7 +141,9 @@ def page_rule(r, bad=0.0):
     sel = r.choice(["", ":first", ":left", ":right", "named", "named:first"])
     margin = ""
     if r.random() < 0.4:
-        margin = f" @{r.choice(['top-left', 'bottom-center', 'right-middle'])} {{ {decl_block(r, n=1)} }}"
+        # one to three margin boxes; the same box may be named more than once (the parser merges those)
+        for _ in range(r.choice([1, 1, 2, 3])):
+            margin += f" @{r.choice(['top-left', 'top-left', 'bottom-center', 'right-middle'])} {{ {decl_block(r, n=r.choice([1, 1, 2]))} }}"
     return f"@page {sel} {{ {decl_block(r, bad=bad)}{margin} }}"
 
 
